@@ -198,6 +198,7 @@ def generate(rng, opts):
         "inheritance": rng.random() < 0.4,
         "stub_modules": rng.random() < 0.3,
         "two_collections": rng.random() < 0.25,
+        "long_chain": rng.random() < 0.04,
     }
     if opts.get("no_moves"):
         swarm["p_detached"] = 0.0
@@ -232,6 +233,11 @@ def generate(rng, opts):
             op = {"op": "bad", "what": rng.choice(["empty_str", "empty_tuple"]), "api": rng.choice(["get", "set", "del"]), "on": _gen_container(rng, ex.model)}
         ops.append(op)
         ex.step(op, None)
+        if swarm["long_chain"] and len(ops) == len(TOPS) + 1:
+            # scale: far more aliases in one line than any random history wires up
+            op = {"op": "chain", "on": [rng.choice(TOPS)], "n": rng.choice([41, 48, 64]), "how": rng.choice(["obj", "obj", "path"])}
+            ops.append(op)
+            ex.step(op, None)
     return {"ops": ops, "swarm": swarm}
 
 
@@ -543,6 +549,68 @@ class Executor:
                     ctx.fail("I5-follow", f"alias {'.'.join(p)} targeted the replaced member {new_path} but does not follow the replacement", tags=t2)
                 elif a.target_path != new_path:
                     ctx.fail("I5-path", f"alias {'.'.join(p)} follows the replacement but reports target path {a.target_path!r} instead of {new_path!r}", tags=alltags)
+
+    def op_chain(self, op, ctx):
+        """A long acyclic chain of aliases k0 -> k1 -> ... -> kf (a function), built with set_member."""
+        m = self.model
+        on = list(op["on"])
+        container, why = m.lookup(on)
+        if container is None or container.kind not in ("module", "class") or any(n.startswith("k") and n[1:].isdigit() or n == "kf" for n in container.children):
+            if ctx:
+                ctx.log("skip", "no place for a chain")
+            return
+        n = op["n"]
+        names = [f"k{i}" for i in range(n)]
+        nodes = []
+        fnode = Node("function", m.next_uid, "kf")
+        m.next_uid += 1
+        fnode.parent = container
+        container.children["kf"] = fnode
+        prev = fnode
+        for name in reversed(names):
+            a = Node("alias", m.next_uid, name)
+            m.next_uid += 1
+            a.parent = container
+            a.tstr = ".".join(on + [prev.name])
+            a.tobj = prev.uid if op["how"] == "obj" else None
+            container.children[name] = a
+            nodes.append(a)
+            prev = a
+        if self.model_only:
+            return
+        g = self.g
+        rcont = self.objs[container.uid]
+        ctx.steps += 1
+        ctx.log("chain", (tuple(on), n, op["how"]))
+        func = g.Function("kf")
+        func.aliases = _RecDict()
+        self.objs[fnode.uid] = func
+        self.uids[id(func)] = fnode.uid
+        try:
+            rcont.set_member("kf", func)
+            rprev = func
+            for a in nodes:
+                real = g.Alias(a.name, rprev if op["how"] == "obj" else a.tstr)
+                self.objs[a.uid] = real
+                self.uids[id(real)] = a.uid
+                rcont.set_member(a.name, real)
+                rprev = real
+        except Exception as e:  # noqa: BLE001
+            ctx.fail("I4-op-raised", f"building a chain of {n} aliases with set_member raised {type(e).__name__}: {e}", exc=e)
+            return
+        first = self.objs[nodes[-1].uid]
+        try:
+            end = first.final_target
+        except Exception as e:  # noqa: BLE001
+            ctx.fail("I7-long-chain", f"{'.'.join(on + ['k0'])}: an acyclic chain of {n} aliases ending at a function cannot be followed: {type(e).__name__}", exc=e)
+            return
+        if end is not func:
+            ctx.fail("I7-long-chain", f"{'.'.join(on + ['k0'])}: the chain of {n} aliases does not end at its function")
+            return
+        if op["how"] == "obj" and func.aliases.get(".".join(on + ["k0"])) is not first:
+            ctx.fail("I6-registration", f"{'.'.join(on + ['k0'])}: first link of a {n}-alias chain is not listed among the aliases of the function it ends at")
+            return
+        ctx.probe("long-alias-chain", n)
 
     def op_transfer(self, op, ctx):
         """Move a top-level module to the other collection: delete it here, insert it there."""
